@@ -646,6 +646,43 @@ fn base_shapes(quick: bool) -> Vec<Shape> {
             out.push(sh("leading-closes", vec![Piece::Zeros(j), Piece::Ones(1), Piece::Alt(l / 2 - 1), Piece::Zeros(1)]));
         }
     }
+    // valleys: x opens, closes down to a bottom, opens again past the block, closes to balance. The bottom visits every word
+    // of an L1 block (= every lane of the 8-wide SIMD L1 builder and its scalar tail) and every L1 block of an L2 block (= every
+    // lane of the L2 builder); the closes start before / at / inside the block, so the running excess at the lane is negative.
+    let l1_blocks: &[usize] = if quick { &[2] } else { &[2, 3] };
+    for &b in l1_blocks {
+        for w in 0..32usize {
+            for o in [0usize, 63] {
+                for kind in 0..3 {
+                    let block_start = 2048 * b;
+                    let bottom = block_start + 64 * w + o;
+                    let s = match kind {
+                        0 => block_start - 64,
+                        1 => block_start,
+                        _ => block_start + 64 * (w / 2),
+                    };
+                    if kind == 2 && w / 2 == 0 {
+                        continue;
+                    }
+                    let y = bottom - s + 1;
+                    let x = s;
+                    let z = 2048 + 640;
+                    out.push(sh("valley-l1", vec![Piece::Ones(x), Piece::Zeros(y), Piece::Ones(z), Piece::Zeros(x - y + z)]));
+                }
+            }
+        }
+    }
+    let l2_lanes: Vec<usize> = if quick { vec![8, 17] } else { (0..32).collect() };
+    for l in l2_lanes {
+        for o in [0usize, 2047] {
+            let block_start = 131072usize;
+            let bottom = block_start + 2048 * l + o;
+            let x = block_start - 2048;
+            let y = bottom - x + 1;
+            let z = 4096 + 64;
+            out.push(sh("valley-l2", vec![Piece::Ones(x), Piece::Zeros(y), Piece::Ones(z), Piece::Zeros(x - y + z)]));
+        }
+    }
     // word-cyclic content (period 7, coprime to the 8-lane SIMD builders), bare and lifted by 128 opens
     let small_n: &[usize] = if quick { &[8, 9, 32, 33, 65] } else { &[8, 9, 31, 32, 33, 40, 64, 65, 256, 257] };
     let steps: &[usize] = if quick { &[1, 3] } else { &[1, 2, 3] };
@@ -684,10 +721,9 @@ fn flips_for(len: usize, quick: bool) -> Vec<usize> {
     };
     if len > 20000 {
         if !quick {
-            for c in [64, 2048, len / 2, len - 1] {
+            for c in [64, 2048, 65536, len / 2, len - 1] {
                 around(c, 0, &mut v);
             }
-            around(65536, 1, &mut v);
         }
     } else if quick {
         for c in [63, 64, 2048, len / 2, len - 1] {
@@ -710,7 +746,7 @@ fn scale_shapes(quick: bool) -> Vec<Shape> {
         if len == 0 {
             continue;
         }
-        let flips = if b.fam.starts_with("cyclic") { vec![] } else { flips_for(len, quick) };
+        let flips = if b.fam.starts_with("cyclic") || b.fam.starts_with("valley") { vec![] } else { flips_for(len, quick) };
         out.push(b.clone());
         for f in flips {
             let mut s = b.clone();
@@ -722,7 +758,7 @@ fn scale_shapes(quick: bool) -> Vec<Shape> {
 }
 
 fn block_inputs(quick: bool) -> Vec<(Vec<u64>, usize)> {
-    let sizes: &[usize] = if quick { &[9, 33] } else { &[7, 8, 9, 31, 32, 33, 64, 65] };
+    let sizes: &[usize] = if quick { &[9, 33] } else { &[7, 8, 9, 31, 32, 33, 65] };
     let mut out = Vec::new();
     for &n in sizes {
         for f in [0u64, u64::MAX, 0x5555_5555_5555_5555] {
@@ -838,13 +874,13 @@ fn explore(ctx: &Ctx, rep: &mut Report) {
     rep.merge(r);
     rep.mark_exhaustive(
         "block-families",
-        &format!("special word s at position p in filler f: all p, s in W8, f in {{0, MAX, 0x5555..}}, sizes {} words, len in {{cap, cap-63}}; 6 constructors (each select support, owned+borrowed) x {{clean, stray bits}}, surplus word for 2 of them", if q { "9,33" } else { "7,8,9,31,32,33,64,65" }),
+        &format!("special word s at position p in filler f: all p, s in W8, f in {{0, MAX, 0x5555..}}, sizes {} words, len in {{cap, cap-63}}; 6 constructors (each select support, owned+borrowed) x {{clean, stray bits}}, surplus word for 2 of them", if q { "9,33" } else { "7,8,9,31,32,33,65" }),
     );
 
     lap("block-families", &mut phases);
     // (b) scale families
     let shapes = scale_shapes(q);
-    let rates_big: [u32; 3] = [1, 64, 4096];
+    let rates_big: [u32; 2] = [1, 4096];
     let r = par_range_in(ctx, "scale-families", shapes.len() as u64, 1, |i, rep| {
         let s = &shapes[i as usize];
         let bits = s.bits();
@@ -853,6 +889,8 @@ fn explore(ctx: &Ctx, rep: &mut Report) {
         let marks: Vec<usize> = s.flip.into_iter().collect();
         let long = len > 20000;
         let (depth, rates): (Depth, &[u32]) = match (long, s.flip.is_some()) {
+            // valleys target the index builders, which every constructor shares: the minimal constructor set
+            _ if s.fam.starts_with("valley") => (Depth::Min, &[]),
             // short unflipped bases: every constructor, every storage variant (cyclic content beyond 40 words: the reduced set)
             (false, false) => {
                 if s.fam == "cyclic" && len > 40 * 64 + 128 {
@@ -862,7 +900,7 @@ fn explore(ctx: &Ctx, rep: &mut Report) {
                 }
             }
             (false, true) => (Depth::Few, &[]),
-            // long unflipped bases: every constructor at rates 1/64/4096 (quick: the minimal set)
+            // long unflipped bases: every constructor at rates 1/4096 (quick: the minimal set)
             (true, false) => {
                 if q || s.fam == "cyclic-long" {
                     (Depth::Min, &[])
@@ -880,7 +918,7 @@ fn explore(ctx: &Ctx, rep: &mut Report) {
     rep.merge(r);
     rep.mark_exhaustive(
         "scale-families",
-        "nest 1^a0^b, flat (10)^m, wrapped 1(10)^m0, nestflat 1^a(10)^b0^a at every length of the boundary sets {c-2..c+2} of 64,128,512,2048,4096 (quick also 65535..65537; thorough also 65536,131072), nesting depths across 32767/32768/49152/65536 (thorough also 98304), 49152+ unmatched closes first, every boundary-set prefix of a long nest / nestflat, 1/2/63/64/65 leading closes, period-7 word-cyclic content of 8..65 (thorough ..257, 1023..2049) words; each base also with one bit flipped at every position within ±2 of 0/64/512/2048/len/2/len-1 (quick: at 63, 64, 2048, len/2, len-1) (long inputs, thorough only: at 64, 2048, 65535..65537, len/2, len-1). Constructor depth: short unflipped = all 21 x 4 storage variants; short flipped / long cyclic = 6 constructors; long unflipped = 13 constructors (rates 1/64/4096) x {clean, stray bits} (quick: 3); long flipped = 3 constructors",
+        "nest 1^a0^b, flat (10)^m, wrapped 1(10)^m0, nestflat 1^a(10)^b0^a at every length of the boundary sets {c-2..c+2} of 64,128,512,2048,4096 (quick also 65535..65537; thorough also 65536,131072), nesting depths across 32767/32768/49152/65536 (thorough also 98304), 49152+ unmatched closes first, every boundary-set prefix of a long nest / nestflat, 1/2/63/64/65 leading closes, period-7 word-cyclic content of 8..65 (thorough ..257, 1023..2049) words, valleys 1^x 0^y 1^z 0^(x-y+z) whose bottom visits every word of L1 block 2 (thorough also 3) at bit 0 and 63 and every L1 block of L2 block 2 (quick: blocks 8 and 17); each base also with one bit flipped at every position within ±2 of 0/64/512/2048/len/2/len-1 (quick: at 63, 64, 2048, len/2, len-1) (long inputs, thorough only: at 64, 2048, 65536, len/2, len-1). Constructor depth: short unflipped = all 21 x 4 storage variants; short flipped / long cyclic = 6 constructors; long unflipped = 11 constructors (rates 1/4096) x {clean, stray bits} (quick: 3); long flipped = 3 constructors",
     );
 
     lap("scale-families", &mut phases);
